@@ -569,6 +569,13 @@ func check(id, tier string) int {
 			infra = append(infra, fmt.Sprintf("bad report %s: %v", j.report, err))
 			continue
 		}
+		if errs[k] != nil { // the harness process must exit 0 whatever it found; anything else is a crash
+			tail := outs[k]
+			if len(tail) > 2000 {
+				tail = tail[len(tail)-2000:]
+			}
+			infra = append(infra, fmt.Sprintf("HARNESS-CRASH unit=%s shard=%d/%d exit=%v output:\n%s", j.b.u.Name, j.i, j.n, errs[k], tail))
+		}
 		name := j.b.u.Name
 		s := sums[name]
 		if s == nil {
